@@ -17,6 +17,11 @@
 //    O: a read from the start of a file gives the verdict and the tree of mpt_parse_node on the same bytes with
 //    the same format and flags; a read behind a complete read delivers the empty tree; a failed read leaves the
 //    target node unchanged; open/reset report success exactly when the file exists; no leak.
+//
+// Format descriptions (first case byte 0x40..0x5f): a drawn description for mpt_parse_format (all fields; more, fewer or
+//    no characters per class; blanks of every kind; short and NULL descriptions) on an exact-size heap copy.
+//    O: every field equals an independent reading of the description; a generated text gives the same verdict and the
+//    same elements with the described format and with the same delimiters set directly.
 #include <dirent.h>
 #include <signal.h>
 #include <unistd.h>
@@ -112,7 +117,7 @@ static std::string token_soup(Ctx &c, const Fmt &f) {
 }
 
 // ---- recording handler
-struct Event { int curr, last; std::string path; bool has_val; size_t val_len; };
+struct Event { int curr, last; std::string path; bool has_val; size_t val_len; std::string val; };
 struct Recorder {
   std::vector<Event> ev;
   size_t refuse_at = 0;  // 1-based index of the event the handler refuses (0 = never)
@@ -124,7 +129,11 @@ struct Recorder {
     if (p->base && p->len) e.path.assign(p->base + p->off, p->len);
     e.has_val = v != 0;
     e.val_len = 0;
-    if (v && v->_addr) e.val_len = ((const struct iovec *)v->_addr)->iov_len;
+    if (v && v->_addr) {
+      const struct iovec *vec = (const struct iovec *)v->_addr;
+      e.val_len = vec->iov_len;
+      if (vec->iov_base && vec->iov_len) e.val.assign((const char *)vec->iov_base, vec->iov_len);
+    }
     r->ev.push_back(e);
     if (r->refuse_at && r->ev.size() == r->refuse_at) return -1;
     return 0;
@@ -264,6 +273,184 @@ static int parse_into(Ctx &c, node *root, const Fmt &f, Flags fl, const std::str
     c.label("node:accepted");
   }
   return r;
+}
+
+// ---- format descriptions: mpt_parse_format against an independent reading of the description
+//
+// Layout (parse_format.c, parse.h MPT_PARSER_FORMAT_INIT): [0] section start, [1] family, [2] section end,
+// [3] option start, [4] assign, [5] option end; a blank there means "none"; a description that ends early leaves the
+// remaining fields at their defaults ('{' '}' none '=' none, comment '#', quotes " and '). Behind position 5:
+// "comments until space character", white space, "escape character after comments" (until white space or the end).
+// Each class keeps the first characters it has room for (4 comment, 3 quote characters); what is named beyond that
+// belongs to no other field. A NULL description is the default format.
+struct RefFormat {
+  int family = '*';
+  uint8_t sstart = '{', send = '}', ostart = 0, assign = '=', oend = 0, esc[3] = {'"', '\'', 0}, com[4] = {'#', 0, 0, 0};
+};
+static bool ref_blank(unsigned char ch) { return ch == ' ' || (ch >= '\t' && ch <= '\r'); }
+static RefFormat ref_format(const std::string *desc) {
+  RefFormat r;
+  if (!desc) return r;
+  const std::string &s = *desc;
+  size_t n = s.size();
+  uint8_t *head[] = {&r.sstart, 0, &r.send, &r.ostart, &r.assign, &r.oend};
+  for (size_t i = 0; i < 6; i++) {
+    if (i >= n) return r;
+    unsigned char ch = s[i];
+    if (i == 1) r.family = ch;
+    else *head[i] = ref_blank(ch) ? 0 : ch;
+  }
+  if (n == 6) return r;
+  size_t p = 6, k = 0;
+  memset(r.com, 0, sizeof r.com);
+  for (; p < n && !ref_blank(s[p]); ++p, ++k) if (k < 4) r.com[k] = s[p];
+  while (p < n && ref_blank(s[p])) ++p;
+  if (p >= n) return r;
+  memset(r.esc, 0, sizeof r.esc);
+  for (k = 0; p < n && !ref_blank(s[p]); ++p, ++k) if (k < 3) r.esc[k] = s[p];
+  return r;
+}
+
+static std::string draw_description(Ctx &c, bool &is_null) {
+  static const char fam[] = {'*', 'x', ' ', '_', 'q', '\t'};
+  static const char pool[] = "{}[]()<>|%$@&*+-/:;,!#~^=?_`\"'.\\a0";
+  static const char blank[] = " \t\n\r\v\f";
+  auto sym = [&]() -> char {
+    switch (c.weighted({12, 3, 1})) {
+      case 1: return blank[c.weighted({8, 2, 1, 1, 1, 1})];
+      case 2: return (char)c.range(0x80, 0xff);
+      default: return pool[c.pick(sizeof pool - 1)];
+    }
+  };
+  auto mark = [&]() -> char { return c.chance(16) ? (char)c.range(0x80, 0xff) : pool[c.pick(sizeof pool - 1)]; };
+  is_null = false;
+  std::string s;
+  size_t shape = c.weighted({12, 3, 1});
+  if (shape == 2) { is_null = true; return s; }
+  size_t headlen = shape == 1 ? c.range(0, 6) : 6;
+  static const char conv[] = "{*} = ";
+  bool conventional = c.flip();
+  for (size_t i = 0; i < headlen; i++) {
+    if (i == 1) s += fam[c.weighted({6, 3, 3, 2, 1, 1})];
+    else s += conventional && !c.chance(48) ? conv[i] : sym();
+  }
+  if (shape == 1) return s;
+  // comment characters (more than the field holds now and then), blanks, quote characters, blanks, leftovers
+  size_t ncom = c.weighted({3, 6, 3, 2, 2, 2, 1, 1});
+  for (size_t i = 0; i < ncom; i++) s += mark();
+  size_t nb = c.weighted({2, 8, 2, 1});
+  for (size_t i = 0; i < nb; i++) s += blank[c.weighted({8, 2, 1, 1, 1, 1})];
+  size_t nesc = c.weighted({3, 4, 4, 3, 3, 2, 1});
+  for (size_t i = 0; i < nesc; i++) s += mark();
+  if (c.chance(40)) {
+    s += blank[c.weighted({8, 2, 1, 1, 1, 1})];
+    size_t nt = c.range(0, 4);
+    for (size_t i = 0; i < nt; i++) s += sym();
+  }
+  return s;
+}
+
+static int parse_events(Ctx &c, const parser_format *pf, int family, Flags fl, const std::string &doc, Recorder &rec) {
+  input_parser_t fn = mpt_parse_next_fcn(family);
+  if (!fn) return 1;
+  Source src(doc);
+  CObj<parser_context> pc;
+  src.bind(pc);
+  pc->name.sect = fl.sect;
+  pc->name.opt = fl.opt;
+  pc->prev = (uint8_t)parser_context::Section;
+  CObj<parser_format> copy;  // the element parsers take the format as const: hand each parse its own copy
+  memcpy(copy.get(), pf, sizeof *pf);
+  return mpt_parse_config((input_parser_t)fn, copy.get(), pc, Recorder::save, &rec);
+}
+
+static void run_format(Ctx &c) {
+  c.label("entry: mpt_parse_format");
+  bool is_null = false;
+  std::string desc = draw_description(c, is_null);
+  RefFormat ref = ref_format(is_null ? 0 : &desc);
+  // exact-size heap copy of the description: reading behind its terminator is seen by ASan
+  char *heap = 0;
+  if (!is_null) { heap = (char *)malloc(desc.size() + 1); memcpy(heap, desc.c_str(), desc.size() + 1); }
+  struct Free { char *p; ~Free() { free(p); } } fr{heap};
+  CObj<parser_format> pf;
+  memset(pf.get(), 0xA5, sizeof(parser_format));  // every field has to be set by the call
+  int family = mpt_parse_format(pf, heap);
+  c.logf("description %s%s%s (%zu bytes)", is_null ? "NULL" : "\"", is_null ? "" : brief(desc, 80).c_str(), is_null ? "" : "\"", desc.size());
+  c.logf("  library  : family=%02x sstart=%02x send=%02x ostart=%02x assign=%02x oend=%02x com=%02x,%02x,%02x,%02x esc=%02x,%02x,%02x", family, pf->sstart, pf->send, pf->ostart, pf->assign, pf->oend,
+         pf->com[0], pf->com[1], pf->com[2], pf->com[3], pf->esc[0], pf->esc[1], pf->esc[2]);
+  c.logf("  reference: family=%02x sstart=%02x send=%02x ostart=%02x assign=%02x oend=%02x com=%02x,%02x,%02x,%02x esc=%02x,%02x,%02x", ref.family, ref.sstart, ref.send, ref.ostart, ref.assign, ref.oend,
+         ref.com[0], ref.com[1], ref.com[2], ref.com[3], ref.esc[0], ref.esc[1], ref.esc[2]);
+  const char *field = 0;
+  if (family != ref.family) field = "family";
+  else if (pf->sstart != ref.sstart) field = "section start";
+  else if (pf->send != ref.send) field = "section end";
+  else if (pf->ostart != ref.ostart) field = "option start";
+  else if (pf->assign != ref.assign) field = "assign";
+  else if (pf->oend != ref.oend) field = "option end";
+  else if (memcmp(pf->com, ref.com, 4)) field = "comment characters";
+  else if (memcmp(pf->esc, ref.esc, 3)) field = "quote characters";
+  VP_CHECK(c, !field, "format-description", "mpt_parse_format(\"%s\"): %s differ from what the description names (see log)", brief(desc, 60).c_str(), field);
+
+  // shape labels
+  if (is_null) c.label("desc:NULL");
+  else if (desc.size() < 6) c.label("desc:short");
+  else {
+    size_t p = 6, ncom = 0, nesc = 0;
+    while (p < desc.size() && !ref_blank(desc[p])) { ++p; ++ncom; }
+    while (p < desc.size() && ref_blank(desc[p])) ++p;
+    while (p < desc.size() && !ref_blank(desc[p])) { ++p; ++nesc; }
+    if (ncom > 4) c.label("desc:>4-comment-chars");
+    if (ncom == 0) c.label("desc:no-comment-chars");
+    if (nesc > 3) c.label("desc:>3-quote-chars");
+    if (nesc == 0) c.label("desc:no-quote-chars");
+    if (p < desc.size()) c.label("desc:leftovers");
+  }
+
+  // the described format in use: a text for the reference delimiters, parsed with the format the library
+  // decoded and with the reference format set directly, must give the same verdict and the same elements
+  Fmt f;
+  f.family = ref.family; f.sstart = ref.sstart; f.send = ref.send; f.ostart = ref.ostart; f.assign = ref.assign; f.oend = ref.oend;
+  memcpy(f.esc, ref.esc, 3);
+  memcpy(f.com, ref.com, 4);
+  f.text = desc;
+  f.null_text = is_null;
+  if (!mpt_parse_next_fcn(ref.family)) { c.label("fmt:unknown-family"); return; }
+  Flags fl = draw_flags(c);
+  std::vector<uint8_t> deco = deco_bytes(c);
+  std::string doc;
+  bool wellformed = f.assign && f.sstart && f.send && name_char_ok(f, 'a') && !f.is_esc('a') && (f.family == 'x' ? f.sstart == f.send : f.sstart != f.send);
+  if (!wellformed || c.chance(48)) { doc = token_soup(c, f); c.label("input:token-soup"); }
+  else {
+    GenLimits lim;
+    lim.max_nodes = 16;
+    lim.huge_values = false;
+    lim.max_value = 40;
+    TreeGen g(c, f, fl, lim);
+    std::vector<Node> t = g.tree();
+    make_expressible(t, f);
+    Ctx dc(deco.data(), deco.size(), false);
+    Printer pr(dc, f, !deco.empty());
+    doc = pr.render(t);
+    c.label("input:document");
+  }
+  c.logf("input (%zu bytes): %s", doc.size(), brief(doc, 1000).c_str());
+  CObj<parser_format> rf;
+  rf->sstart = ref.sstart; rf->send = ref.send; rf->ostart = ref.ostart; rf->assign = ref.assign; rf->oend = ref.oend;
+  memcpy(rf->esc, ref.esc, 3);
+  memcpy(rf->com, ref.com, 4);
+  Recorder lib, dir;
+  int rl = parse_events(c, pf, family, fl, doc, lib), rd = parse_events(c, rf, ref.family, fl, doc, dir);
+  c.logf("described format: mpt_parse_config=%d, %zu elements; format set directly: %d, %zu elements", rl, lib.ev.size(), rd, dir.ev.size());
+  VP_CHECK(c, rl == rd && lib.ev.size() == dir.ev.size(), "format-in-use", "same text: %d / %zu elements with the described format, %d / %zu with the same delimiters set directly", rl, lib.ev.size(), rd, dir.ev.size());
+  for (size_t i = 0; i < lib.ev.size(); i++) {
+    const Event &a = lib.ev[i], &b = dir.ev[i];
+    VP_CHECK(c, a.curr == b.curr && a.path == b.path && a.has_val == b.has_val && a.val == b.val, "format-in-use",
+             "same text, element %zu: code %x path '%s' value '%s' with the described format, code %x path '%s' value '%s' with the same delimiters set directly", i + 1,
+             a.curr, brief(a.path, 40).c_str(), brief(a.val, 40).c_str(), b.curr, brief(b.path, 40).c_str(), brief(b.val, 40).c_str());
+  }
+  c.label(rl >= 0 ? "config:accepted" : "config:rejected");
+  if (!is_null && desc.size() > 6 && lib.ev.size() >= 2) c.nontrivial();
 }
 
 // ---- C++ front end: mpt::config_parser (mpt++/parse.cpp) on files
@@ -432,6 +619,7 @@ static void run(Ctx &c) {
   // ---- format and flags
   uint8_t sel = c.u8();
   if (sel >= 0x60 && sel < 0x80) { run_cxx(c); return; }
+  if (sel >= 0x40 && sel < 0x60) { run_format(c); return; }
   bool sane = !(sel >= 156);  // (was c.chance(100): same byte, same meaning)
   static const int fam[] = {'*', 'x', ' ', '_'};
   int family = fam[c.weighted({6, 2, 2, 1})];
@@ -530,7 +718,9 @@ static Target t = {
     "harness-built populated / previously parsed root). non-trivial: parse reached depth >= 2, or failed after at least one accepted element (parse_node: failed on a non-empty input), "
     "or merged into a populated root. C++ front end (1 case in 8): mpt::config_parser (default / layout / drawn format, built-in name flags) on two generated files, open then 2-14 of "
     "read / reset / open A / open B / open missing, differential against mpt_parse_node on the same bytes; non-trivial: >= 2 non-empty reads from the start of a file or a failed read "
-    "into a populated target. Distinct by hash of the draw sequence.",
+    "into a populated target. Format descriptions (1 case in 8): drawn description (six head positions incl. blanks/high bytes, 0-7 comment, 0-6 quote characters, blanks, leftovers; "
+    "short; NULL) through mpt_parse_format against an independent reading, then a generated text parsed with the described format and with the same delimiters set directly; "
+    "non-trivial: full description and >= 2 elements delivered. Distinct by hash of the draw sequence.",
     run,
     {2500, 6000},
     false,
